@@ -15,7 +15,7 @@ def main():
     run = Run("C06", "translation_validation", "RX+CH")
     tpls = T.gamma6(tier(), seed())
     lemmas.run_templates(run, tpls)
-    hs = [h for h in c09.harnesses(tier()) if any(x in h.name for x in ("/mem4/", "/mem4_nobase/", "/mem3/", "/mem1/", "/mem0/"))]
+    hs = [h for h in c09.harnesses(tier()) if any(x in h.name for x in ("/mem4/", "/mem4_nobase/", "/mem3/", "/mem1/", "/mem0/", "/mem3_suffix/", "/mem0_suffix/"))]
     for h in hs:
         h.key = "parser_" + h.key
     ch.run_harnesses(run, hs)
